@@ -172,3 +172,24 @@ Definition minimal_tok (t : tok) : bool :=
   end.
 Definition numeric_tok (t : tok) : bool :=
   match t with TPush c d => (c =? 1)%N && numeric_looking d | TOp _ => false end.
+
+(* ------------------------------------------------------------------ *)
+(* texts with arbitrary whitespace around the tokens:  w1 t1 w2 t2 ... wn tn e  where every w and e
+   consists of whitespace characters only, the inner w are non-empty, and every token t is non-empty
+   and free of whitespace *)
+Definition clean_token (t : string) : bool :=
+  match t with EmptyString => false | _ => all_chars (fun c => negb (ws_char c)) t end.
+Fixpoint pad_ws (l : list (string * string)) (e : string) : string :=
+  match l with
+  | [] => e
+  | (w, t) :: r => w +++ t +++ pad_ws r e
+  end.
+Fixpoint padded (first : bool) (l : list (string * string)) : bool :=
+  match l with
+  | [] => true
+  | (w, t) :: r =>
+      all_chars ws_char w && (first || match w with EmptyString => false | _ => true end) && clean_token t && padded false r
+  end.
+
+(* pushes that carry data (a push of no data renders as the empty string) *)
+Definition data_nonempty (t : tok) : bool := match t with TPush _ [] => false | _ => true end.
